@@ -285,6 +285,13 @@ func (r *Report) Finish(explanation string, checkerCmd string) int {
 	for k, v := range r.Extra {
 		cov[k] = v
 	}
+	if r.Assume == nil {
+		r.Assume = []string{}
+	}
+	if r.Trusted == nil {
+		r.Trusted = []string{}
+	}
+	cov["trusted_base"] = r.Trusted
 	seed := 0
 	fmt.Sscanf(os.Getenv("VERIF_SEED"), "%d", &seed)
 	ev := map[string]interface{}{
